@@ -22,6 +22,13 @@ run_one() { # name prop patchfile
     fi
     local out rc
     out=$("$S/sim/target/release/qxsim" check --prop "$prop" --tier quick --evidence "$S/ev.json" --replays "$S/rp" 2>&1); rc=$?
+    if [ $rc -eq 0 ] && [ "$variant" = plain ] && [[ "$name" != neutral_* ]]; then
+        # silent in the plain build: the change may sit in code that only exists with the
+        # `encoding` / `overlapped-lists` features, which ./check covers with its second variant
+        if ( cd "$S/sim" && cargo build --release --offline --features enc >"$S/build.log" 2>&1 ); then
+            out=$("$S/sim/target/release/qxsim" check --prop "$prop" --tier quick --scale 0.25 --evidence "$S/ev.json" --replays "$S/rp" 2>&1); rc=$?
+        fi
+    fi
     local kind detail
     kind=$(echo "$out" | grep -m1 "^  kind:" | sed 's/^  kind: //')
     detail=$(echo "$out" | grep -m1 "document:" | cut -c1-100)
@@ -40,7 +47,7 @@ done < /verif/sensitivity/INDEX.tsv
 for d in /verif/seeded/*/; do
     id=$(basename "$d"); [ -f "$d/patch.diff" ] || continue
     [ -n "$pat" ] && [[ "seeded-$id" != *$pat* ]] && continue
-    prop=${id%%-*}
+    prop=$(jq -r '.breaks_property // empty' "$d/meta.json" 2>/dev/null); [ -n "$prop" ] || prop=${id%%-*}
     pf="$d/patch.diff"
     # a later fix commit may touch the same lines: use the hand-rebased patch if there is one
     ls "$d"/patch-rebased-on-*.diff >/dev/null 2>&1 && pf=$(ls "$d"/patch-rebased-on-*.diff | tail -1)
